@@ -109,7 +109,7 @@ OPERATORS = [
      "delete the leaf-link assertion"),
     ("py-check-del", "break", ["C18"], PY, r'            assert_\(i\.child\.size, "Bucket length < 1"\)\n', "",
      "delete the non-empty assertion (Python)"),
-    ("cursor-guard", "break", ["C15"], I, r"if \(i >= bucket->len\)", "if (i > bucket->len)", "off-by-one cursor guard"),
+    ("cursor-guard", "break", ["C15", "C02"], I, r"if \(i >= bucket->len\)", "if (i > bucket->len)", "off-by-one cursor guard"),
     ("cmp-clear", "break", ["C14"], B, r"(BUCKET_SEARCH\(i, cmp, self, key, )goto Done\);", r"\1{PyErr_Clear(); goto Done;});",
      "swallow a comparison exception"),
     ("search-branch", "break", ["C01"], B, r"(BUCKET_SEARCH\(i, cmp, self, key, goto Done\);\n    if \(cmp) == 0\)", r"\1 != 0)",
